@@ -301,3 +301,82 @@ func (r *nodeRun) resultMutations(res ctypes.Operation) []resMut {
 	out = append(out, resMut{"request-only", x})
 	return out
 }
+
+// errorResults (C15, outside the model's history): the machine's answer to an operation may be an ERROR result (its handler
+// failed: here, the commits operation handed to it a second time - "instance already exists"). Such an answer is an answer
+// like any other: posted once, the operation retired, a second submission refused.
+func (r *nodeRun) errorResults(outDir string) {
+	dir, _ := os.MkdirTemp(outDir, "errres")
+	defer os.RemoveAll(dir)
+	c, err := newCluster(dir, 2, "pw")
+	if err != nil {
+		r.mon("harness: " + err.Error())
+		return
+	}
+	defer c.close()
+	if _, err := c.startDKG(2); err != nil {
+		r.mon("harness: " + err.Error())
+		return
+	}
+	obs := c.nodes[0]
+	var op *ctypes.Operation
+	for i := 0; i < 10 && op == nil; i++ {
+		for _, nd := range c.nodes {
+			c.pollOnce(nd, 0)
+		}
+		for _, o := range obs.pendingOps() {
+			if string(o.Type) == "state_dkg_commits_await_confirmations" {
+				op = o
+			}
+		}
+		if op == nil {
+			for _, nd := range c.nodes {
+				c.answerAll(nd)
+			}
+		}
+	}
+	if op == nil {
+		r.mon("harness: errorResults: the observed node never got its commits operation")
+		return
+	}
+	bz, _ := json.Marshal(op)
+	var cold ctypes.Operation
+	json.Unmarshal(bz, &cold)
+	var res ctypes.Operation
+	for attempt := 0; attempt < 2; attempt++ { // the second answer is the machine's error result
+		path, err := obs.air.ProcessOperation(cold, true)
+		if err != nil {
+			r.mon("harness: errorResults: " + err.Error())
+			return
+		}
+		rb, _ := os.ReadFile(path)
+		os.Remove(path)
+		res = ctypes.Operation{}
+		if json.Unmarshal(rb, &res) != nil {
+			return
+		}
+	}
+	if !strings.Contains(string(res.Event), "canceled_by_error") {
+		r.st.Notes = append(r.st.Notes, "errorResults: the machine's second answer to the commits operation is "+string(res.Event)+", not an error result")
+		return
+	}
+	r.st.ErrorResults++
+	from := len(c.boardMessages())
+	if err := obs.svc.ProcessOperation(opToDTO(&res)); err != nil {
+		r.mon(fmt.Sprintf("C15 posted_exactly_result: the machine's error result (%s) for a pending operation is refused: %v", res.Event, err))
+		return
+	}
+	if posted := len(c.boardMessages()) - from; posted != len(res.ResultMsgs) {
+		r.mon(fmt.Sprintf("C15 posted_exactly_result: %d messages posted for an error result with %d", posted, len(res.ResultMsgs)))
+	}
+	for _, p := range obs.pendingOps() {
+		if p.ID == res.ID {
+			r.mon(fmt.Sprintf("C15 retired_once: after its error result (%s) was accepted and posted the operation is still pending", res.Event))
+		}
+	}
+	from = len(c.boardMessages())
+	err = obs.svc.ProcessOperation(opToDTO(&res))
+	if posted := len(c.boardMessages()) - from; err == nil || posted > 0 {
+		r.mon(fmt.Sprintf("C15 retired_once: the error result (%s) of a retired operation was accepted again (%d more messages posted)", res.Event, posted))
+	}
+}
